@@ -61,7 +61,7 @@ func main() {
 		}
 		var names []string
 		for _, f := range p.Funcs {
-			names = append(names, f.Name())
+			names = append(names, f.Name()+"\t"+engine.SigString(f.Obj))
 		}
 		sort.Strings(names)
 		for _, n := range names {
